@@ -28,11 +28,17 @@ def main(tier):
         "does not contain /testcases, and the page is a redirect or has a wikitext/Scribunto/json model; the call "
         "carries the page's own title, namespace id and model, the revision text verbatim (no redirect) or no body and "
         "the redirect target (redirect). add_page (shared with C10): exactly one upsert keyed by norm_add(title, ns) "
-        "with the body verbatim outside the template namespace. add_default_templates: each of the four helper "
+        "with the body verbatim outside the template namespace, and for a template page the body stored is the "
+        "result of the one _template_to_body call made on the body given. _template_to_body: on every path the five "
+        "removals run in the documented order, each on the result of the previous one, the <onlyinclude> scan reads "
+        "the text after the fourth, and the value returned is the result of the last removal (no early exit or "
+        "skipped step; pattern texts pinned as drift clauses). add_default_templates: each of the four helper "
         "templates is added only after page_exists was asked for exactly that title and namespace; the store is "
         "committed. B (bounded, not counted as proved): generated .xml.bz2 dumps through the real bz2+lxml path.")
     rep.assumptions += ["lxml findtext/find/get return the element text / element / attribute as documented (external)",
-                        "_template_to_body (regex-only) is checked in the bounded tier of C04/C12 only"]
+                        "what each of the six regular expressions of _template_to_body matches is CPython's re (external); "
+                        "their texts are pinned, their joint effect on MediaWiki-style bodies is checked in the bounded "
+                        "tiers of C04/C12"]
     return rep.finish(replayer=replay, expected_min_functions=len(cs) + len(shared))
 
 
